@@ -270,16 +270,12 @@ theorem parseDuration_render (p : DurParts) (hwf : p.WF) (hmax : natOfDigits (op
     have hr : p.render = ('+' :: (optChars p.intp ++ fracChars p.frac)) ++ ['s'] := by
       simp [DurParts.render, hs, Sign.chars, List.append_assoc]
     rw [hr, parseDuration_snoc, if_neg (by simp)]
-    simp only [List.head?_cons, Option.some.injEq, List.tail_cons]
-    rw [if_neg (by decide), if_pos rfl, hbody]
-    simp
+    simp [hbody]
   | minus =>
     have hr : p.render = ('-' :: (optChars p.intp ++ fracChars p.frac)) ++ ['s'] := by
       simp [DurParts.render, hs, Sign.chars, List.append_assoc]
     rw [hr, parseDuration_snoc, if_neg (by simp)]
-    simp only [List.head?_cons, List.tail_cons]
-    rw [if_pos rfl, hbody]
-    simp
+    simp [hbody]
 
 /-- the strings on which the scanner departs from the documented grammar -/
 def noDigits (s : Str) : Prop := s = ['.', 's'] ∨ s = ['+', '.', 's'] ∨ s = ['-', '.', 's']
@@ -346,6 +342,7 @@ theorem fmtDuration_text {secs nanos : Int} (hv : DurationValid secs nanos) :
     rw [hN] at this
     simp only [List.append_assoc, List.singleton_append] at this ⊢
     rw [this]
+    simp [List.append_assoc]
   · have e1 : secs.toNat = secs.natAbs := by omega
     have e2 : nanos.toNat = nanos.natAbs := by omega
     simp only [hneg, decide_false, if_false, Bool.false_eq_true, e1, e2]
@@ -353,6 +350,7 @@ theorem fmtDuration_text {secs nanos : Int} (hv : DurationValid secs nanos) :
     rw [hN] at this
     simp only [List.append_assoc, List.singleton_append, List.nil_append] at this ⊢
     rw [this]
+    simp [List.append_assoc]
 
 /-- the parts of the text `fmtDuration` produces -/
 def fmtParts (secs nanos : Int) : DurParts :=
